@@ -110,6 +110,9 @@ pub fn obs_of(o: &Oracle, cp: u32) -> Value {
         // the same character AFTER the first character that triggers the copying path
         "osp2": one("OPQ", "additional_mapping_rule", &[0xa0, cp, a]),
         "nsp2": one("NICK", "additional_mapping_rule", &[a, 0xa0, cp, a]),
+        // ... and as the LAST character of a label whose spaces need action
+        "osp3": one("OPQ", "additional_mapping_rule", &[0xa0, a, cp]),
+        "nsp3": one("NICK", "additional_mapping_rule", &[0x20, a, cp]),
         "bidi": [
             dir_ok(&[0x05d0, cp]),
             if is_nsm { json!("skip") } else { dir_ok(&[0x05d0, cp, 0x05d0]) },
